@@ -87,10 +87,26 @@ fn digest(k: &FullKey) -> u64 {
 
 pub struct Router;
 
+/// Free-running cross-check only: microseconds by which every READ critical section of the
+/// shared search state is stretched (busy wait right after the read lock is granted), so that
+/// writers queue up behind live readers. std's futex RwLock refuses new readers while a writer
+/// waits, so a reader that takes a second read guard in such a state — through code the hooks
+/// do not announce — blocks for good and the hang watchdog fires.
+pub static STRETCH_READERS_US: std::sync::atomic::AtomicU32 = std::sync::atomic::AtomicU32::new(0);
+
 impl Observer for Router {
     fn on_event(&self, ev: &Event) {
         if matches!(ev, Event::LockWillAcquire { .. } | Event::LockAcquired { .. } | Event::LockReleased { .. }) {
             crate::props::c09_locks::record(ev);
+            if let Event::LockAcquired { write: false, .. } = ev {
+                let us = STRETCH_READERS_US.load(std::sync::atomic::Ordering::Relaxed);
+                if us > 0 {
+                    let t = std::time::Instant::now();
+                    while t.elapsed().as_micros() < us as u128 {
+                        std::hint::spin_loop();
+                    }
+                }
+            }
             return;
         }
         let sched = match CUR.with(|c| c.borrow().clone()) {
